@@ -18,6 +18,13 @@ def rule_fold_bound(tree: Tree) -> RuleResult:
     m = f.module
     loops = [n for n in body_walk(f.node) if isinstance(n, ast.While)]
     if len(loops) != 1:
+        folds = [n for n in body_walk(f.node) if isinstance(n, ast.BinOp) and isinstance(n.op, ast.RShift) and try_fold(n.right) == 16]
+        if not loops and folds:
+            r.instances += 1
+            r.ob(False, Finding("FOLD", "checksums:ones_complement_checksum:fold-guard",
+                                "the carry fold `(sum >> 16) + (sum & 0xFFFF)` is not applied in a loop: one fold of a 17-bit sum can again exceed 0xFFFF "
+                                "(e.g. 0x1FFFF → 0x10000), and the following 2-byte conversion overflows for packets with a correct checksum", m.line(folds[0])))
+            return r
         raise AnchorMissing("ones_complement_checksum: expected exactly one fold loop")
     w = loops[0]
     r.instances += 1
